@@ -257,6 +257,11 @@ def gen_update(rng, kind: dict) -> dict:
 def generate(rng, tier: str, index: int) -> dict:
     kinds = [gen_kind(rng, i) for i in range(rng.choice([1, 2, 2]))]
     scripts = [[gen_update(rng, k) for _ in range(rng.randint(1, 30 if tier == 'thorough' else 14))] for k in kinds]
+    for sc in scripts:
+        # the very same UPDATE again, back to back (a peer re-sending, a withdraw repeated): the second copy must be reported like the first
+        for _ in range(rng.choice([0, 0, 1, 2])):
+            j = rng.randint(0, len(sc) - 1)
+            sc.insert(j, jclone(sc[j]))
     return {'micro_seed': rng.randint(1, 1 << 48), 'knobs': knobs(rng), 'kinds': kinds, 'scripts': scripts, 'gap': rng.choice([0.0, 0.001, 0.02, 0.15]), 'split_p': rng.choice([0.0, 0.3, 0.8])}
 
 
